@@ -466,7 +466,7 @@ impl Next for Prec {
 //@   ret r
 //@   spec
     ensures
-        r <==> (binop_rank(ctx.tok()) >= 0 || is_postfix_tok(ctx.tok())), //# C13 valid_infix.set
+        r <==> (binop_rank(ctx.tok()) >= 0 || is_postfix_tok(ctx.tok())), //# C13,C14 valid_infix.set
 //@   endspec
 //@ end
 
